@@ -14,6 +14,7 @@ from concurrent.futures import ThreadPoolExecutor
 
 from vlib import core
 from vlib.core import Undecided, log
+from vlib.tlaparse import to_json
 
 HARNESS = ["zz_verif_c05_test.go", "zz_verif_c05_mempool_test.go"]
 
@@ -32,7 +33,14 @@ WEAK_PIPELINE = {
     "InitChainAlways": {"JournalWellFormed"},
     "CommitWithoutMempoolLock": {"MempoolBracket"},
     "NoFlushBeforeCommit": {"MempoolBracket"},
+    "NoEndHeightRepair": {"NoStuck"},
 }
+
+# attack-schedule library: crash between SaveBlock and the #ENDHEIGHT write of height h, then again
+# in height h+1 after the key has signed its prevote (found by TLC with Weak_NoEndHeightRepair)
+ATTACKS = [{"id": "atk:endheight%d+prevote%d" % (h, h + 1),
+            "crashes": [{"idx": 0, "label": "wal/endheight/%d/0" % h, "occ": 1},
+                        {"idx": 0, "label": "wal/msg:prevote/%d/0" % (h + 1), "occ": 1}]} for h in (1, 2, 3)]
 
 
 # ------------------------------------------------------------------------------ spec label -> harness label
@@ -177,6 +185,7 @@ def run(ctx):
 
     # non-vacuity: every Weak_ switch must be refuted by TLC through the expected invariant
     nonvac = {}
+    attacks = list(ATTACKS)
     for w, expect in WEAK_PIPELINE.items():
         rw = ctx.tlc("C05_pipeline", "C05_weak_%s.cfg" % w, timeout=600, workers=4, label="weak_" + w)
         got = {v["name"] for v in rw.violations}
@@ -184,6 +193,11 @@ def run(ctx):
             raise Undecided("vacuity: Weak_%s is not refuted through %s (got %s, errors %s)" % (
                 w, sorted(expect), sorted(got), rw.errors[:1]))
         nonvac["Weak_%s refuted by TLC (%s)" % (w, ",".join(sorted(got & expect)))] = True
+        if w == "NoEndHeightRepair" and rw.violations and rw.violations[0]["trace"]:
+            # attack-schedule synthesis: the counterexample's crash schedule is replayed on the real node
+            last = rw.violations[0]["trace"][-1][1]
+            synth, _ = run_specs_from_tlc([to_json(last["s"])["sched"]], "atk-tlc")
+            attacks = ATTACKS + synth
     for w in ("CommitWithoutMempoolLock", "NoFlushBeforeCommit"):
         rw = ctx.tlc("C05_mplock", "C05_mplock_weak_%s.cfg" % w, timeout=600, workers=4, label="mplock_weak_" + w)
         if rw.errors or rw.timed_out or not any(v["name"] == "NoNewCheckDuringCommit" for v in rw.violations):
@@ -217,8 +231,9 @@ def run(ctx):
     exhaustive_runs.append(r_rb)
     n_tlc_scheds = len(tlc_runs)
     if quick:
-        # all single-crash schedules; k = 2 comes from the seeded sample below
-        pass
+        # single-crash schedules duplicate the index-exhaustive single crashes below: replay a seeded half
+        rnd.shuffle(tlc_runs)
+        tlc_runs = tlc_runs[:40]
     elif len(tlc_runs) > 2000:
         k1 = [r for r in tlc_runs if len(r["crashes"]) == 1]
         k2 = [r for r in tlc_runs if len(r["crashes"]) == 2]
@@ -246,16 +261,16 @@ def run(ctx):
             pairs.append((first, j))
     rnd.shuffle(pairs)
     n_pairs_total = len(pairs)
-    pairs = pairs[:(80 if quick else 1500)]
+    pairs = pairs[:(40 if quick else 1500)]
     # and a third one during the second recovery (sampled)
     k2_runs = [{"id": "k2:%d,%d" % p, "crashes": [{"idx": p[0], "label": "", "occ": 0},
                                                     {"idx": p[1], "label": "", "occ": 0}]} for p in pairs]
     triples = []
-    for p in pairs[:(12 if quick else 250)]:
+    for p in pairs[:(6 if quick else 250)]:
         third = 1 + rnd.randrange(12)
         triples.append({"id": "k3:%d,%d,%d" % (p[0], p[1], third),
                         "crashes": [{"idx": x, "label": "", "occ": 0} for x in (p[0], p[1], third)]})
-    rows_k2 = run_pipeline(ctx, binp, k2_runs + triples, "k2", procs)
+    rows_k2 = run_pipeline(ctx, binp, attacks + k2_runs + triples, "k2", procs)
     rows_tlc = run_pipeline(ctx, binp, tlc_runs, "tlc", procs)
 
     # application rollback (chain without pruning: an app that asked to prune what it then loses is its own problem)
@@ -263,16 +278,16 @@ def run(ctx):
     n0rb = ops_of_incarnation(free_rb, 0)
     rb_points = [(i, n) for i in range(1, n0rb + 1) for n in (1, 2)]
     rnd.shuffle(rb_points)
-    rb_points = rb_points[:(40 if quick else len(rb_points))]
+    rb_points = rb_points[:(24 if quick else len(rb_points))]
     rb_runs = [{"id": "rb:%d-%d" % p, "crashes": [{"idx": p[0], "label": "", "occ": 0, "rollback": p[1]}]} for p in rb_points]
-    for p in rb_points[:(10 if quick else 150)]:
+    for p in rb_points[:(6 if quick else 150)]:
         j = 1 + rnd.randrange(30)
         rb_runs.append({"id": "rb2:%d-%d,%d" % (p[0], p[1], j),
                         "crashes": [{"idx": p[0], "label": "", "occ": 0, "rollback": p[1]},
                                     {"idx": j, "label": "", "occ": 0, "rollback": rnd.randrange(2)}]})
-    if quick and len(rb_tlc_runs) > 60:
+    if quick and len(rb_tlc_runs) > 30:
         rnd.shuffle(rb_tlc_runs)
-        rb_tlc_runs = rb_tlc_runs[:60]
+        rb_tlc_runs = rb_tlc_runs[:30]
     rows_rb = run_pipeline(ctx, binp, rb_runs + rb_tlc_runs, "rb", procs, retain={})
 
     # TLC schedules that the real node did not realise (a crash label that never came up)
@@ -313,7 +328,7 @@ def run(ctx):
     vm = core.validate_traces(ctx, "TMMempoolLockTrace", rows_m, label="mempool", max_events=4000, timeout=1200)
 
     # ---- 6. verdict --------------------------------------------------------------------------------
-    specs_by_id = {r["id"]: r for r in [{"id": "free", "crashes": []}] + k1_runs + k2_runs + triples + tlc_runs}
+    specs_by_id = {r["id"]: r for r in [{"id": "free", "crashes": []}] + k1_runs + attacks + k2_runs + triples + tlc_runs}
     noprune_ids = {r["id"] for r in rb_runs + rb_tlc_runs} | {"free-noprune"}
     specs_by_id.update({r["id"]: r for r in rb_runs + rb_tlc_runs})
     mspec_by_id = {r["id"]: r for r in mruns}
@@ -383,9 +398,9 @@ def run(ctx):
         "exhaustive": False,
         "exhaustive_parts": {
             "single crash at every operation of the crash-free run": True,
-            "TLC single-crash schedules all replayed": True,
-            "double crashes": "all %d TLC schedules replayed" % n_tlc_scheds if (not quick and len(tlc_runs) == n_tlc_scheds)
-                              else "sampled (seed %d)" % ctx.seed,
+            "TLC crash schedules replayed": "all %d" % n_tlc_scheds if len(tlc_runs) == n_tlc_scheds
+                                            else "%d of %d (seeded sample; all single-crash ones in thorough)" % (len(tlc_runs), n_tlc_scheds),
+            "double / triple crashes at operation indexes": "sampled (seed %d)" % ctx.seed,
         },
         "tlc_runs": ctx.tlc_stats,
         "pipeline_runs": len(all_runs),
@@ -396,6 +411,7 @@ def run(ctx):
         "tlc_schedules_not_realised_by_the_node": unrealised[:10],
         "tlc_schedules_not_realised_count": len(unrealised),
         "app_rollback_runs": len(rb_runs) + len(rb_tlc_runs),
+        "attack_schedules": [a["id"] for a in attacks],
         "mempool_runs": len(mruns),
         "mempool_events": len(rows_m),
         "mempool_check_requests_by_version_client_kind": minter,
